@@ -144,6 +144,41 @@ def main():
                 res.append({"kind": kname, "steps": steps})
         config.update("jaxtyping_disable", False)
         out["behaviour"] = res
+
+        # ---- a module loaded through the import hook, imported while the switch is on or off
+        import tempfile, shutil, importlib
+        from jaxtyping import install_import_hook
+        hd = tempfile.mkdtemp(prefix="vfc19h")
+        sys.path.insert(0, hd)
+        sys.dont_write_bytecode = True
+        SRC = ("import numpy as np\nfrom jaxtyping import Float\nA = np.ndarray\n\n"
+               "def f(x: Float[A, 'a b'], y: Float[A, 'b']) -> Float[A, 'a']:\n    return x.sum(axis=1) if x.shape[1] == y.shape[0] else x\n")
+        hooked = []
+        try:
+            k = 0
+            for tcn in ("typeguard.typechecked", "beartype.beartype"):
+                for at_import in (True, False):
+                    k += 1
+                    hn, pn = "c19hook%d" % k, "c19plain%d" % k
+                    for nm in (hn, pn):
+                        open(os.path.join(hd, nm + ".py"), "w").write(SRC)
+                    config.update("jaxtyping_disable", at_import)
+                    with install_import_hook(hn, tcn):
+                        hm = importlib.import_module(hn)
+                    pm = importlib.import_module(pn)
+                    steps = []
+                    for flag in ([True, False, True, False] if at_import else [False, True, False]):
+                        config.update("jaxtyping_disable", flag)
+                        for nm, args in (("good", good), ("bad", bad)):
+                            a = outcome_of(hm.f, *args); b = outcome_of(pm.f, *args)
+                            same = a[:2] == b[:2] and (a[0] != "ret" or np.array_equal(a[2], b[2]))
+                            steps.append({"flag": flag, "args": nm, "wrapped": a[:2], "plain": b[:2], "same": bool(same)})
+                    hooked.append({"checker": tcn, "disabled_at_import": at_import, "steps": steps})
+        finally:
+            config.update("jaxtyping_disable", False)
+            sys.path.remove(hd)
+            shutil.rmtree(hd, ignore_errors=True)
+        out["hooked"] = hooked
     # ---- environment variable, fresh interpreters
     envres = []
     for v in req.get("env_values", []):
